@@ -83,8 +83,11 @@ pub fn exec(toks: &[&str]) -> String {
         let tal = || TalInfo::from_name("t".into()).into_arc();
         let two = cert.inspect_ta(true).is_ok() && cert.clone().verify_ta_at(tal(), true, now_t).is_ok();
         let by_ref = cert.inspect_ta(true).is_ok() && cert.verify_ta_ref_at(true, now_t).is_ok();
+        // the generated names conform to the profile, which is all `strict` looks at: both modes must agree
+        let relaxed = cert.clone().validate_ta_at(tal(), false, now_t).is_ok();
         let main = cert.validate_ta_at(tal(), true, now_t);
-        let extra = format!("{}{}", alt(main.is_ok(), two, "inspect_ta+verify_ta_at"), alt(main.is_ok(), by_ref, "inspect_ta+verify_ta_ref_at"));
+        let extra = format!("{}{}{}", alt(main.is_ok(), two, "inspect_ta+verify_ta_at"), alt(main.is_ok(), by_ref, "inspect_ta+verify_ta_ref_at"),
+            alt(main.is_ok(), relaxed, "validate_ta_at(strict=false)"));
         return match main {
             Ok(rc) => format!("{}{}", show_rc(&rc), extra),
             Err(_) => format!("err{}", extra),
@@ -94,19 +97,23 @@ pub fn exec(toks: &[&str]) -> String {
     match kind {
         "ca" => {
             let two = cert.inspect_ca(true).is_ok() && cert.clone().verify_ca_at(&issuer, true, now_t).is_ok();
-            match cert.validate_ca_at(&issuer, true, now_t) { Ok(rc) => format!("{}{}", show_rc(&rc), alt(true, two, "inspect_ca+verify_ca_at")), Err(_) => format!("err{}", alt(false, two, "inspect_ca+verify_ca_at")) }
+            let relaxed = cert.clone().validate_ca_at(&issuer, false, now_t).is_ok();
+            match cert.validate_ca_at(&issuer, true, now_t) { Ok(rc) => format!("{}{}{}", show_rc(&rc), alt(true, two, "inspect_ca+verify_ca_at"), alt(true, relaxed, "validate_ca_at(strict=false)")), Err(_) => format!("err{}{}", alt(false, two, "inspect_ca+verify_ca_at"), alt(false, relaxed, "validate_ca_at(strict=false)")) }
         }
         "ee" => {
             let two = cert.inspect_ee(true).is_ok() && cert.clone().verify_ee_at(&issuer, true, now_t).is_ok();
-            match cert.validate_ee_at(&issuer, true, now_t) { Ok(rc) => format!("{}{}", show_rc(&rc), alt(true, two, "inspect_ee+verify_ee_at")), Err(_) => format!("err{}", alt(false, two, "inspect_ee+verify_ee_at")) }
+            let relaxed = cert.clone().validate_ee_at(&issuer, false, now_t).is_ok();
+            match cert.validate_ee_at(&issuer, true, now_t) { Ok(rc) => format!("{}{}{}", show_rc(&rc), alt(true, two, "inspect_ee+verify_ee_at"), alt(true, relaxed, "validate_ee_at(strict=false)")), Err(_) => format!("err{}{}", alt(false, two, "inspect_ee+verify_ee_at"), alt(false, relaxed, "validate_ee_at(strict=false)")) }
         }
         "dee" => {
             let two = cert.inspect_detached_ee(true).is_ok() && cert.clone().verify_ee_at(&issuer, true, now_t).is_ok();
-            match cert.validate_detached_ee_at(&issuer, true, now_t) { Ok(rc) => format!("{}{}", show_rc(&rc), alt(true, two, "inspect_detached_ee+verify_ee_at")), Err(_) => format!("err{}", alt(false, two, "inspect_detached_ee+verify_ee_at")) }
+            let relaxed = cert.clone().validate_detached_ee_at(&issuer, false, now_t).is_ok();
+            match cert.validate_detached_ee_at(&issuer, true, now_t) { Ok(rc) => format!("{}{}{}", show_rc(&rc), alt(true, two, "inspect_detached_ee+verify_ee_at"), alt(true, relaxed, "validate_detached_ee_at(strict=false)")), Err(_) => format!("err{}{}", alt(false, two, "inspect_detached_ee+verify_ee_at"), alt(false, relaxed, "validate_detached_ee_at(strict=false)")) }
         }
         "rt" => {
             let two = cert.inspect_router(true).is_ok() && cert.verify_router_at(&issuer, true, now_t).is_ok();
-            match cert.validate_router_at(&issuer, true, now_t) { Ok(()) => format!("ok{}", alt(true, two, "inspect_router+verify_router_at")), Err(_) => format!("err{}", alt(false, two, "inspect_router+verify_router_at")) }
+            let relaxed = cert.validate_router_at(&issuer, false, now_t).is_ok();
+            match cert.validate_router_at(&issuer, true, now_t) { Ok(()) => format!("ok{}{}", alt(true, two, "inspect_router+verify_router_at"), alt(true, relaxed, "validate_router_at(strict=false)")), Err(_) => format!("err{}{}", alt(false, two, "inspect_router+verify_router_at"), alt(false, relaxed, "validate_router_at(strict=false)")) }
         }
         _ => "bad-op".into(),
     }
